@@ -177,3 +177,21 @@ def local_id_identity_rule(ctx: Ctx, rid: str, files: tuple, what: str):
 
 def key_of_text(*parts) -> str:
     return "|".join(p for p in parts if p)
+
+
+def edge_selects_me(ctx: Ctx, fn: Func, node: ast.AST) -> bool:
+    """`node` tests that a dependency edge's predecessor is this task: `pred is self.property`, or `self._dependsOnMe(pred)`
+    where _dependsOnMe walks self.property and its parent chain comparing by identity (a dependency on an enclosing container is a
+    dependency on the task)."""
+    if isinstance(node, ast.Compare) and len(node.ops) == 1 and isinstance(node.ops[0], ast.Is) and norm(node.comparators[0]) == "self.property":
+        return True
+    if isinstance(node, ast.Call) and norm(node.func) == "self._dependsOnMe" and len(node.args) == 1 and ctx.repo.has_func("TaskScenario._dependsOnMe"):
+        f = ctx.repo.func("TaskScenario._dependsOnMe")
+        p = f.params[1] if len(f.params) > 1 else None
+        inits = [n for n in own_nodes(f) if isinstance(n, (ast.Assign, ast.AnnAssign)) and norm(n.value) == "self.property"]
+        walks = [n for n in own_nodes(f) if isinstance(n, ast.Assign) and norm(n.value).endswith(".parent")]
+        ident = [n for n in own_nodes(f) if isinstance(n, ast.Compare) and len(n.ops) == 1 and isinstance(n.ops[0], ast.Is) and norm(n.left) == p]
+        trues = [r for r in own_nodes(f) if isinstance(r, ast.Return) and isinstance(r.value, ast.Constant) and r.value.value is True]
+        guarded = all(any(isinstance(i.test, ast.Compare) and i.test in ident for (i, b) in enclosing_ifs(r, f.node) if b == "T") for r in trues)
+        return bool(p and inits and walks and ident and trues and guarded)
+    return False
